@@ -1949,7 +1949,10 @@ def setitem_array(out_name, array, indices, value):
                 else:
                     block_index_size = None
                     n_preceding = None
-                    dim_1d_int_index = dim
+                    # position among the dimensions without an integer
+                    # index (the positions of ``block_indices_shape``)
+                    dim_1d_int_index = len(block_indices_shape)
+                    dim_1d_int_dim = dim
                     loc0_loc1 = loc0, loc1
 
                 if not is_dask_collection(index) and not block_index.size:
@@ -1997,7 +2000,7 @@ def setitem_array(out_name, array, indices, value):
                 #
                 # Define index in the current namespace for use in
                 # `value_indices_from_1d_int_index`
-                index = indices[j]
+                index = indices[dim_1d_int_dim]
 
                 value_indices[i] = value_indices_from_1d_int_index(
                     dim_1d_int_index, value_shape[i + value_offset], *loc0_loc1
